@@ -6,7 +6,9 @@ LAYOUTS = ("contig", "cols", "rows", "T")
 PAD = 7.0
 
 
-DTYPES = {"f64": torch.double, "f32": torch.float32, "i64": torch.int64}
+DTYPES = {"f64": torch.double, "f32": torch.float32, "i64": torch.int64,
+          # final pass: every element type a caller's 0/1 batch can have (measurement files, comparisons, `.to(...)`)
+          "f16": torch.float16, "i32": torch.int32, "i16": torch.int16, "i8": torch.int8, "u8": torch.uint8, "bool": torch.bool}
 
 
 def make_batch(rows, n, layout="contig", dtype=torch.double):
@@ -15,6 +17,8 @@ def make_batch(rows, n, layout="contig", dtype=torch.double):
     T: column-major (transposed storage).  dtype: element type of the batch (a torch dtype or a key of DTYPES): the samples are 0 / 1, so
     every dtype holds the same logical content"""
     dtype = DTYPES.get(dtype, dtype)
+    if dtype == torch.bool:
+        layout = "contig"   # (a bool buffer cannot hold the PAD marker)
     B = len(rows)
     base = torch.tensor(rows, dtype=dtype).reshape(B, n)
     if layout in (None, "contig") or B == 0 or n == 0:
